@@ -287,8 +287,9 @@ class ComposedNode(ConfigNode):
 
             if other.ayns.delete:
                 removed = set()
-                def maybe_keep(path, node):
-                    other_node = other.ayns.get_first_not_missing_node(path)
+                def maybe_keep(child_path, node):
+                    # "child_path" includes "path" (a prefix leading to "self" and "other"), look the node up relative to "other"
+                    other_node = other.ayns.get_first_not_missing_node(child_path[len(path):])
                     return node.ayns.has_priority_over(other_node)
 
                 self.ayns.filter_nodes(maybe_keep, prefix=path, removed=removed)
